@@ -46,6 +46,9 @@ public:
 	void unref()
 	{
 		if(_p && --_p->rc == 0) {
+#ifdef ASL_VERIF
+			asl_verif_point(3, &_p->rc);
+#endif
 			delete _p;
 		}
 	}
